@@ -4,6 +4,7 @@ CONSTANTS
   WRun = {}
   WTerm = {}
   QCap = 4
+  MaxIters = 2
   MaxStart = 2
   ParentCancels = TRUE
   Presents = {{"start","run","stop"}}
